@@ -135,9 +135,11 @@ impl<'a> Recorder<'a> {
                     self.own.insert((c.h, *v), vec![]);
                 }
                 Call::Bind { v1, a, .. } => {
-                    let e = self.own.entry((c.h, *v1)).or_default();
-                    if !e.contains(a) {
-                        e.push(a.clone());
+                    // only for vertices whose creation this record has seen (otherwise it would be incomplete)
+                    if let Some(e) = self.own.get_mut(&(c.h, *v1)) {
+                        if !e.contains(a) {
+                            e.push(a.clone());
+                        }
                     }
                 }
                 Call::New { .. } | Call::Clone { .. } | Call::Reload { .. } | Call::Slice { .. } | Call::Merge { .. } | Call::Deploy { .. } => {
